@@ -32,7 +32,7 @@ from harness.core import LEAN_DIR, REPO, Check, use_repo
 SPECIAL = '"\\{}|<>\n'
 PIECES = ['"', "\\", "{", "}", "|", "<", ">", "\n", "?", "'", "&", ";", ":", "[", "]", "-", "=", ",", "#", "/", "*",
           " ", "\t", "\\n", "\\l", "->", "//", "/*", '\\"', '}"', ']"', '"]', "é", "☃", "&amp;", "%", "@", "x", "ab",
-          "Z9", "_", ".", "0", "\r", "\\\\", '\\\\"', "|}", "{|", "<b>", "$"]
+          "Z9", "_", ".", "0", "\r", "\\\\", '\\\\"', "|}", "{|", "<b>", "$", "\nend legend\n", "\n}\n", "\n@enduml\n"]
 PLAIN = "abcdefghijklmnopqrstuvwxyzABCDEFGHIJKLMNOPQRSTUVWXYZ0123456789_ "
 FNAME_PIECES = ['"', "\\", "{", "}", "|", "<", ">", "\n", "?", "'", "&", ";", " ", "é", "a", "b", "m", "x", "-", "=", "["]
 BASES = ["STRING", "INT", "FLOAT", "BOOL", "ID", "NUMBER", "STRICTFLOAT"]
@@ -359,7 +359,8 @@ def gen_model_case(rng):
                 strings.append({"t": "bool", "v": rng.chance(0.5)})
             else:
                 strings.append({"t": "opaque"})
-        mode = rng.weighted([("single", 4), ("file", 2), ("repo_arg", 3), ("global", 3), ("generator", 2), ("fileapi", 2)])
+        mode = rng.weighted([("single", 4), ("file", 2), ("repo_arg", 3), ("global", 3), ("generator", 2), ("fileapi", 2),
+                             ("repo_str", 1)])
         nfiles = 1 if mode in ("single", "file", "generator", "fileapi") else rng.randint(1, 3)
         files = []
         ok = True
@@ -582,7 +583,7 @@ def run_model_case(case, tmp):
     models = []
     for f in case["files"]:
         text = obj_text(classes, f["root"])
-        if mode == "single":
+        if mode in ("single", "repo_str"):
             models.append(mm.model_from_str(text))
         else:
             path = os.path.join(tmp, f["fname"])
@@ -618,7 +619,7 @@ def run_model_case(case, tmp):
             return {"outcome": "nofile", "files": sorted(produced)}
         text = open(os.path.join(outdir, produced[0]), encoding="utf-8", newline="").read()
         plan = [("plain", models[0])]
-    elif mode == "repo_arg":
+    elif mode in ("repo_arg", "repo_str"):
         f = io.StringIO()
         ex.model_export_to_file(f, repo=list(models))
         text = f.getvalue()
@@ -742,8 +743,9 @@ class Prop(Check):
     LEAN_MODULE = "TextxVerif.Props.C29"
     THEOREMS = []  # filled below
     DRIVER = "Drivers/Dot.lean"
-    QUICK_CASES = 700
+    QUICK_CASES = 500
     THOROUGH_CASES = 12000
+    PROCS_THOROUGH = 4
     RULE = ("non-trivial = a string containing one of \" \\ { } | < > newline reaches an escaped hole of the export "
             "(object name, attribute value, list item, file name, match-rule body) or dot_repr truncates")
     MODELLED = ("regenerated each run (tie T): dot_escape replace chain, dot_repr limit/delimiters, HEADER "
@@ -968,7 +970,7 @@ class Prop(Check):
             if len(case["files"]) > 1:
                 for i in range(len(case["files"])):
                     yield dict(case, files=case["files"][:i] + case["files"][i + 1:])
-            if case["mode"] not in ("single", "repo_arg"):
+            if case["mode"] not in ("single", "repo_arg", "repo_str"):
                 yield dict(case, mode="repo_arg" if case["mode"] == "global" else "single")
             for i, s in enumerate(case["strings"]):
                 if s["t"] != "str":
@@ -1020,7 +1022,8 @@ class Prop(Check):
     def extra_search(self, rng, tier, broken):
         out = []
         # every single special character and pairs of them through every escaped hole
-        singles = list('"\\{}|<>\n?') + ['\\"', 'a"b', "a\\", "{|}", "x" * 19 + '"', "x" * 19 + "\\"]
+        singles = list('"\\{}|<>\n?') + ['\\"', 'a"b', "a\\", "{|}", "x" * 19 + '"', "x" * 19 + "\\",
+                                          "x\nend legend\n}", "x\n@enduml\nz", "</td><td>", "&<"]
         for s in singles:
             out.append({"kind": "escape", "s": s})
         for s in singles:
@@ -1031,8 +1034,8 @@ class Prop(Check):
                 "files": [{"fname": "m", "root": {"c": 0, "vals": {"name": 0, "a1": 0, "a2": [{"s": 0}, {"o": {"c": 0, "vals": {"name": 0, "a1": 0, "a2": [{"i": 1}], "a3": [0]}}}], "a3": [0, 0]}}}]})
             fn = s.replace("/", "_").replace("\x00", "_") or "m"
             if fn not in (".", "..") and fn.strip(" ") == fn:
-                out.append({"kind": "model", "mode": "repo_arg", "classes": [{"attrs": []}], "strings": [{"t": "str", "v": "x"}],
-                            "files": [{"fname": fn, "root": {"c": 0, "vals": {}}}]})
+                out.append({"kind": "model", "mode": "repo_arg", "classes": [{"attrs": [{"n": "a0", "k": "int", "opt": True}]}],
+                            "strings": [{"t": "str", "v": "x"}], "files": [{"fname": fn, "root": {"c": 0, "vals": {}}}]})
             if not s.endswith("\\"):
                 out.append({"kind": "mm", "renderer": "dot", "via": "tofile", "linetype": None, "rules": [
                     {"name": "R0", "t": "common", "attrs": [{"n": "a0", "op": "=", "rhs": {"t": "rule", "r": "M0"}, "opt": False}]},
